@@ -78,13 +78,19 @@ def build(name, race=False, tags="verif"):
     modfile = os.path.join(BUILD, "go-%s.mod" % key)
     sumfile = os.path.join(BUILD, "go-%s.sum" % key)
     new = _gen_gomod()
-    if not os.path.exists(modfile) or open(modfile).read() != new:
-        open(modfile, "w").write(new)
+    def _atomic(path, text):
+        if os.path.exists(path) and open(path).read() == text:
+            return
+        tmp = "%s.%d.tmp" % (path, os.getpid())
+        with open(tmp, "w") as f:
+            f.write(text)
+        os.replace(tmp, path)
+    _atomic(modfile, new)
     extra = os.path.join(HARNESS, "extra.sum")
-    with open(sumfile, "w") as f:
-        f.write(open(os.path.join(REPO, "go.sum")).read())
-        if os.path.exists(extra):
-            f.write(open(extra).read())
+    sumtext = open(os.path.join(REPO, "go.sum")).read()
+    if os.path.exists(extra):
+        sumtext += open(extra).read()
+    _atomic(sumfile, sumtext)
     out = os.path.join(BUILD, name + ("-race" if race else "") + ("" if REPO == "/repo" else "-" + key))
     cmd = ["go", "build", "-trimpath", "-modfile", modfile, "-tags", tags, "-o", out]
     if race:
